@@ -22,32 +22,33 @@ import (
 const vcNode = "dtn://node/"
 
 type vcAttr struct {
-	Origin    string   `json:"origin"`
-	Dst       string   `json:"dst"`
-	Prev      string   `json:"prev"`
-	Life      string   `json:"life"`
-	Clockless bool     `json:"clockless"`
-	OwnSrc    bool     `json:"ownsrc"` // received from a peer, but the source is an endpoint of this node (a bundle of ours coming back after we lost it)
-	Tsg       int      `json:"tsg"`
-	Req       []string `json:"req"`
-	Admin     bool     `json:"admin"`
-	RptLocal  bool     `json:"rptlocal"`
-	RptAlias  bool     `json:"rptalias"` // report-to is an endpoint of a local agent on another node name
-	Hop       []int    `json:"hop"`
-	HasUnk    bool     `json:"hasunk"`
-	UnkF      []string `json:"unkf"`
-	Copies    int      `json:"copies"`
-	Time      bool     `json:"time"`
-	Frag      bool     `json:"frag"`
-	Age       int      `json:"age"`
-	About     string   `json:"about"`   // administrative record: the catalogue bundle the status report is about ("" = some unknown bundle)
-	RKind     string   `json:"rkind"`   // received | forwarded | delivered | deleted
-	Anon      bool     `json:"anon"`    // submitted with source dtn:none (must-not-fragment set, no report requests)
-	OldTs     bool     `json:"oldts"`   // the creation time lies ten minutes in the past
-	RptNone   bool     `json:"rptnone"` // report-to is dtn:none although reports are requested
-	UnkMore   int      `json:"unkmore"` // number of further unsupported blocks (same flags) next to the first, at most 2
-	Desc      bool     `json:"desc"`    // extension blocks on the wire in descending order of their numbers (a foreign node's choice)
-	Lsd       int      `json:"lsd"`     // > 0: the bundle carries DTLSR link-state data of node dtn://lsorigin/ with this timestamp
+	Origin     string   `json:"origin"`
+	Dst        string   `json:"dst"`
+	Prev       string   `json:"prev"`
+	Life       string   `json:"life"`
+	Clockless  bool     `json:"clockless"`
+	OwnSrc     bool     `json:"ownsrc"` // received from a peer, but the source is an endpoint of this node (a bundle of ours coming back after we lost it)
+	Tsg        int      `json:"tsg"`
+	Req        []string `json:"req"`
+	Admin      bool     `json:"admin"`
+	RptLocal   bool     `json:"rptlocal"`
+	RptNoAgent bool     `json:"rptnoagent"` // report-to is an endpoint of this node that no agent has registered
+	RptAlias   bool     `json:"rptalias"`   // report-to is an endpoint of a local agent on another node name
+	Hop        []int    `json:"hop"`
+	HasUnk     bool     `json:"hasunk"`
+	UnkF       []string `json:"unkf"`
+	Copies     int      `json:"copies"`
+	Time       bool     `json:"time"`
+	Frag       bool     `json:"frag"`
+	Age        int      `json:"age"`
+	About      string   `json:"about"`   // administrative record: the catalogue bundle the status report is about ("" = some unknown bundle)
+	RKind      string   `json:"rkind"`   // received | forwarded | delivered | deleted
+	Anon       bool     `json:"anon"`    // submitted with source dtn:none (must-not-fragment set, no report requests)
+	OldTs      bool     `json:"oldts"`   // the creation time lies ten minutes in the past
+	RptNone    bool     `json:"rptnone"` // report-to is dtn:none although reports are requested
+	UnkMore    int      `json:"unkmore"` // number of further unsupported blocks (same flags) next to the first, at most 2
+	Desc       bool     `json:"desc"`    // extension blocks on the wire in descending order of their numbers (a foreign node's choice)
+	Lsd        int      `json:"lsd"`     // > 0: the bundle carries DTLSR link-state data of node dtn://lsorigin/ with this timestamp
 }
 
 func (a vcAttr) unkFlags() (has bool, flags bpv7.BlockControlFlags) {
@@ -525,6 +526,8 @@ func (w *vcWorld) build(name string) bpv7.Bundle {
 	pb := bpv7.NewPrimaryBlock(flags, bpv7.MustNewEndpointID(dst), bpv7.MustNewEndpointID(src), cts, life)
 	if a.RptLocal && a.RptAlias {
 		pb.ReportTo = bpv7.MustNewEndpointID("dtn://alias/inbox")
+	} else if a.RptLocal && a.RptNoAgent {
+		pb.ReportTo = bpv7.MustNewEndpointID("dtn://node/monitor")
 	} else if a.RptLocal {
 		pb.ReportTo = bpv7.MustNewEndpointID("dtn://node/app")
 	} else if a.RptNone {
